@@ -64,6 +64,7 @@ ASSUMPTIONS = [
     "runs are contiguous in the media timebase (no drift at the loop boundary) – the excluded case is ledger entry D13a",
     "SCTE-35: splice_null, time_signal, splice_insert (program or component mode, cancel), avail/segmentation(program)/time descriptors; other structures are ledger entry D13i",
     "out-of-band listing is only defined for count > 0 (an unbounded schedule cannot be listed) – ledger entry D13g",
+    "a segment spans at most 10000 event intervals and (HTTP level) <event>__count <= 10000: larger values are refused with 400 since fix 8c4223f (C16) – ledger entry D13k",
 ]
 
 
@@ -124,6 +125,23 @@ def emsg_oracle_on_real(case):
             return [f"interval {case['sched']['interval']} accepted: {segs[:2]}"]
         return []
     segs = E.real_boxes(case)
+    # segments spanning > MAX_EVENTS_PER_SEGMENT intervals are refused by design (fix 8c4223f,
+    # ledger D13k): outside the hypotheses – they must answer ValueError, and are then left out
+    kept_run, kept = [], []
+    for (tfdt, dur), seg in zip(case["run"], segs):
+        if case["sched"]["inband"] and E.refused(case["sched"], case["rep_timescale"], tfdt, dur):
+            if seg != "ValueError":
+                return [f"segment with more than {E.MAX_EVENTS_PER_SEGMENT} intervals was not refused: {str(seg)[:60]}"]
+            if kept_run:
+                break           # the run ends where a request is refused
+            continue
+        kept_run.append([tfdt, dur])
+        kept.append(seg)
+    if len(kept_run) != len(case["run"]):
+        if not kept_run:
+            return []
+        case = dict(case, run=kept_run)
+        segs = kept
     bad = [s for s in segs if isinstance(s, str)]
     if bad:
         return [f"create_emsg_boxes raised {bad[0]}" if bad[0] != "NonTermination" else
@@ -193,6 +211,11 @@ def ch_emsg(ctx):
         ch.count(f"segments={min(len(c['run']), 13) if len(c['run']) < 13 else '13+'}")
         if s["interval"] < 1:
             ch.count("interval<1 (ValueError)")
+        elif any(E.refused(s, c["rep_timescale"], t, d) for t, d in c["run"]):
+            ch.count("more than 10000 intervals in a segment (ValueError)")
+        elif any((E.seg_interval(s, c["rep_timescale"], t, d)[1] - E.seg_interval(s, c["rep_timescale"], t, d)[0])
+                 // s["interval"] >= 9999 for t, d in c["run"]):
+            ch.count("9999..10000 intervals in a segment (accepted)")
         if s["timescale"] != c["rep_timescale"]:
             ch.count("timescales differ")
         bounds = {t * s["timescale"] // c["rep_timescale"] for t, _ in c["run"]}
@@ -724,6 +747,11 @@ def replay_finding(ctx, finding):
         want = w["sched"]["count"]
         # D13g: schedule unbounded (count <= 0) and out-of-band, yet nothing is listed
         return (not w["sched"]["inband"]) and want <= 0 and listed == []
+    if chn == "emsg_refused":
+        # D13k: the schedule has an event in the segment, yet the request is refused
+        segs = E.real_boxes(w)
+        a, b = E.seg_interval(w["sched"], w["rep_timescale"], *w["run"][0])
+        return bool(E.expected_ids(w["sched"], a, b)) and segs[0] == "ValueError"
     if chn == "emsg_encode":
         # D13j: the boxes (or their SCTE-35 payload) cannot be encoded when the id needs > 32 bits
         try:
